@@ -28,12 +28,15 @@ func verifVerb(args ...string) RecordTransformer {
 
 func c12Inputs(n int) [][]c12KV { return c12InputsOpt(n, true) }
 
+// how present values are chosen: 0 one symbolic byte, 1 the constant "v", 2 one of "v"/"w"
+var c12ValueMode = 0
+
 func c12InputsOpt(n int, allowEmpty bool) [][]c12KV {
 	var recs [][]c12KV
 	for i := 0; i < n; i++ {
 		var r []c12KV
 		names := []string{"a", "b", "c"}
-		if verifChoice("reversed", 2) == 1 {
+		if allowEmpty && verifChoice("reversed", 2) == 1 {
 			names = []string{"c", "b", "a"}
 		}
 		for j, nm := range names {
@@ -46,7 +49,14 @@ func c12InputsOpt(n int, allowEmpty bool) [][]c12KV {
 			}
 			switch verifChoice("field", nk) {
 			case 1:
-				r = append(r, c12KV{nm, verifString("v", 1)})
+				switch c12ValueMode {
+				case 1:
+					r = append(r, c12KV{nm, "v"})
+				case 2:
+					r = append(r, c12KV{nm, []string{"v", "w"}[verifChoice("value", 2)]})
+				default:
+					r = append(r, c12KV{nm, verifString("v", 1)})
+				}
 			case 2:
 				r = append(r, c12KV{nm, ""})
 			}
